@@ -69,6 +69,11 @@ func (fm *FileHandleMap) Allocate(f absfs.File) uint64 {
 		}
 		// Evict starting from the lowest handles
 		for h := minHandle; evictCount > 0; h++ {
+			if h == handle {
+				// never evict the entry being issued: a recycled (lowest) id would
+				// otherwise be returned to the caller already dead
+				continue
+			}
 			if file, exists := fm.handles[h]; exists {
 				// Clean up path mapping for evicted entries
 				if node, ok := file.(*NFSNode); ok {
